@@ -247,9 +247,7 @@ Definition mstep (fixed : bool) (slots : list (path * N)) (g : gstate) (own : li
              | None => (g, Done (Err EMissingColl) own)
              | Some CRun => (g, Cont (at_ph 2 s))
              | Some _ => (g, Done (Err ETypeError) own) end
-      | 2%nat => match lookup n (colls g) with
-                 | None => (g, Done (Err EMissingColl) own)
-                 | Some _ => (g, Cont (mkS 3 (ids_in_run g n) [] [] false)) end
+      | 2%nat => (g, Cont (mkS 3 (ids_in_run g n) [] [] false))   (* a vanished run simply has no datasets *)
       | 3%nat => match remove_coll (trash_move g (ids s)) n with
                  | inl g' => (g', Cont (at_ph ET_READ s0))
                  | inr x => (g, Done (Err x) own) end
